@@ -17,7 +17,7 @@ NEXT_RES = "<_ as core::iter::traits::iterator::Iterator>::next"
 BB = "cozy_chess_types::bitboard::BitBoard"
 SQ = "cozy_chess_types::square::Square"
 
-ITER_TERMINALS = ("fold", "any", "all", "for_each", "find", "collect", "count")
+ITER_TERMINALS = ("fold", "any", "all", "for_each", "find", "collect", "count", "try_fold")
 ITER_ADAPTORS = ("map", "filter", "copied", "cloned", "flatten", "filter_map")
 OPT_COMBINATORS = ("map", "map_or", "and_then", "is_some_and", "unwrap_or", "filter", "map_or_else")
 BOOL_COMBINATORS = ("then_some", "then")
@@ -373,8 +373,15 @@ class Rewriter:
         H_stmts = []
         # accumulator / result plumbing
         acc = None
-        if m == "fold":
-            acc = self.new_local(self.locals[dest["l"]]["ty"] if not dest["p"] else "?", "fold_acc")
+        if m == "try_fold":
+            rty = self.closure_ret_ty(t["args"][2])
+            if not rty.startswith("core::option::Option<"):
+                return False            # only the Option-valued form is rewritten
+        if m in ("fold", "try_fold"):
+            aty = self.locals[dest["l"]]["ty"] if not dest["p"] else "?"
+            if m == "try_fold":
+                aty = aty[len("core::option::Option<"):-1] if aty.startswith("core::option::Option<") else "?"
+            acc = self.new_local(aty, "fold_acc")
             pre.append(self.assign(acc, self.use(t["args"][1]), sp))
             clos = self.closure_local(t["args"][2], pre, sp)
         elif m == "collect":
@@ -402,6 +409,9 @@ class Rewriter:
         # exit block (iterator exhausted)
         if m in ("fold", "collect"):
             exit_stmts = [self.assign_pl(dest, self.use(self.mv(acc)), sp)]
+        elif m == "try_fold":
+            exit_stmts = [self.assign_pl(dest, {"k": "agg", "ak": "adt", "adt": "core::option::Option", "variant": "Some",
+                                                "vi": 1, "targs": [], "fields": ["0"], "ops": [self.mv(acc)]}, sp)]
         elif m == "any":
             exit_stmts = [self.assign_pl(dest, self.use({"k": "const", "ty": "bool", "v": 0}), sp)]
         elif m == "all":
@@ -425,6 +435,20 @@ class Rewriter:
             a2 = self.new_local(self.ty(acc))
             back = self.new_block([self.assign(acc, self.use(self.mv(a2)), sp)], self.goto(H, sp))
             self.blocks[cur]["term"] = self.closure_call(clos, [self.mv(acc), self.mv(x)], a2, back, sp, self.blocks[cur]["stmts"])
+        elif m == "try_fold":
+            # acc = f(acc, x)?  : None leaves with None, Some(v) continues with v
+            rty = self.closure_ret_ty(t["args"][2])
+            r2 = self.new_local(rty)
+            d2 = self.new_local("isize")
+            chk = self.new_block([self.assign(d2, {"k": "discr", "pl": self.pl(r2), "of": rty}, sp)], None)
+            self.blocks[cur]["term"] = self.closure_call(clos, [self.mv(acc), self.mv(x)], r2, chk, sp, self.blocks[cur]["stmts"])
+            U2 = self.new_block([], {"k": "unreachable", "sp": sp})
+            brk = self.new_block([self.assign_pl(dest, {"k": "agg", "ak": "adt", "adt": "core::option::Option", "variant": "None",
+                                                        "vi": 0, "targs": [], "fields": [], "ops": []}, sp)], self.goto(T, sp))
+            inner_ty = rty[len("core::option::Option<"):-1]
+            cont = self.new_block([self.assign(acc, self.use(self.cp(r2, [{"dc": 1, "n": "Some", "of": rty}, {"f": 0, "n": "0", "of": rty, "ty": inner_ty}])), sp)],
+                                  self.goto(H, sp))
+            self.blocks[chk]["term"] = {"k": "switch", "discr": self.mv(d2), "dty": "isize", "arms": [[0, brk], [1, cont]], "otherwise": U2, "sp": sp}
         elif m == "collect":
             if self.ty(x) == BB:
                 b2 = x
